@@ -72,6 +72,10 @@ CHECKS = {
          "Property test with a formula oracle: every lazy vector kind (one/two/three-source transforms incl. index-dependent functions, the shipped arithmetic transforms, lazy-over-lazy and sources of another index type; windowed delta operators Sub/Avg/Change/Rate over generated monotone window starts; sparse aggregation over generated first-index mappings) is built over stored sources of generated formats and lengths, and every read path (whole, ranges incl. beyond the end and to=usize::MAX, into-buffer, fold/try_fold with early exit, for_each, signed ranges, point reads, sorted reads with duplicates, cursors, boxed clones) is compared with the closed formula over the model sources, right after construction and again after the sources grew.",
          "Float outputs are compared bit-exactly (same operation order as documented); for a delta vector whose window-start array is shorter than its source, len() may report the source length while min(source, starts) elements are readable - the reads are held to the readable length. Halve/Negate are only defined for signed element types and are not exercised.",
          "property-based testing against a closed-formula oracle over generated sources, mappings and read requests (proptest)", "DESIGN.md §4 C15"),
+ "C09": ("E6-sched", "exploration",
+         "Schedule exploration with a deterministic scheduler: one writer program (append batches around the page thresholds, write()/flush()) and 1-2 reader programs over read-only clones run as real threads of which exactly one executes at a time; every instrumented lock request (hook H3) and every yield point around the stored-length publication (H4) is a scheduling point and the next program comes from a generated choice vector (uniform / sticky / directed preemption right before the publication). Oracle: every value read at index i is the value pushed at i, every returned sequence covers the indices below the length the reader had observed, lengths never decrease, no panic, no model deadlock, final contents complete.",
+         "Interleavings at lock-request/yield-point granularity under sequential consistency only (weak-memory reorderings of the length's Release/Acquire pair are out of reach); locks modelled as writer-preferring FIFO. Known finding KF-C09-1 (compressed write() re-encoding the partial last page in place before the index update) is excluded by construction (such batches are shortened) and counted.",
+         "property-based schedule exploration: generated thread programs x generated schedules under a deterministic scheduler, prefix/value oracle (proptest)", "DESIGN.md §4 C09, §3 E6"),
 }
 WIP = "not claimed: the generated-input check designed in DESIGN.md §4 was not built within the time available (the technique applies; nothing is asserted about this property)"
 
@@ -101,6 +105,7 @@ ENGINES = [
  {"name": "E8-proc", "path": "harness/src/props/c18.rs", "serves_properties": ["C18"], "kind_free_text": "holder/open-attempt histories; second opens from threads and from re-exec'd child processes (vcheck --child-open)"},
  {"name": "E2-crash", "path": "harness/src/crash", "serves_properties": ["C05", "C12"], "kind_free_text": "storage-event recorder (hook H1) + page-versioned durable-image simulator + crash-image enumeration and recovery oracle on top of E1"},
  {"name": "E5-lazy", "path": "harness/src/props/c15.rs", "serves_properties": ["C15"], "kind_free_text": "lazy vector constructors over stored sources, closed-formula oracles, generic read-path matrix"},
+ {"name": "E6-sched", "path": "harness/src/sched", "serves_properties": ["C09", "C10", "C11"], "kind_free_text": "deterministic scheduler: real threads, one running at a time, scheduling points at instrumented lock requests (H3) and yield points (H4), writer-preferring FIFO lock model, deadlock = no enabled program"},
  {"name": "E1-rawmodel", "path": "harness/src/rawmodel", "serves_properties": ["C01", "C02", "C13", "C05", "C12", "C10"], "kind_free_text": "rawdb op language + byte-vector reference model + extent invariants, driven by proptest"},
 ]
 manifest = {
